@@ -18,6 +18,28 @@ CLAIMS = {
               "Exhaustive in both directions, which is the quantifier of the property."),
         design="5/C22", technique="TLA+ spec + TLC exhaustive MC; TLC trace validation of real-controller BFS; TLC-generated per-transition replay",
         note="Trusts TLC, the Go toolchain and the 60-line joypad driver; a fresh controller is assumed to have no key held."),
+    "C01": dict(
+        category="model_checking",
+        text=("SM83.tla transcribes the documented effect of all 245+256 opcodes as pure operators over the octal decode; TLC checks it over every opcode x a boundary lattice "
+              "against independent frame conditions, the documented cycle table, access-plan well-formedness and exhaustive 8-bit ALU identities (leg A). Every instruction executed "
+              "by the real CPU in the drivers' sweeps (exhaustive over the 8-bit ALU/shift/bit/DAA spaces, 16-bit INC/DEC and ADD SP,e in thorough; random full states for every opcode) "
+              "is recorded with its bus log and validated by TLC against SM83!Exec; the repository's daa.csv is validated against SM83!Daa."),
+        design="5/C01", technique="TLA+ transcription of the ISA checked by TLC; bulk TLC trace validation of recorded instruction executions",
+        note="The ISA is a data-path function: confidence in the transcription comes from redundancy (identities, daa.csv, independent tables, agreement with the code). STOP only constrained to leave registers/memory unchanged."),
+    "C02": dict(
+        category="model_checking",
+        text=("The documented cycle table (SM83!CyclesDoc, by instruction class, conditional forms from the flags at that moment) is checked by TLC to agree with SM83!Exec on every opcode x flag nibble; "
+              "the number of machine cycles between instruction boundaries of the real CPU is recorded for every defined opcode x all 16 flag nibbles (exhaustive) plus random states and "
+              "validated by TLC against the table."),
+        design="5/C02", technique="TLA+ cycle table + TLC trace validation of recorded per-instruction cycle counts",
+        note="Cycle counts are measured as ExecuteMachineCycle calls between boundaries reported by the verif hook VerifAtBoundary (= the CPU's own isFinished)."),
+    "C03": dict(
+        category="model_checking",
+        text=("SM83!Exec carries an access plan (cycle, direction, address, value) per instruction; TLC checks its well-formedness on every opcode. The real CPU's data accesses are observed "
+              "two independent ways - the bus hook in Mapper.Read/Write with the machine-cycle index, and a perturbation family in which the harness rewrites memory before every cycle and "
+              "snapshots it after every cycle - and TLC validates both against the plan for every opcode with pointers steered into every memory region."),
+        design="5/C03", technique="TLA+ access plan + TLC trace validation of bus logs and of per-cycle memory perturbation/snapshot schedules",
+        note="Operand (instruction-stream) fetch timing is not constrained; data addresses coinciding with the instruction's own bytes are excluded."),
     "C12": dict(
         category="model_checking",
         text=("Timer.tla (16-bit counter, edge detector, relative overflow/zero/reload pipeline, interrupt bookkeeping) is model-checked by TLC over all operation "
